@@ -835,3 +835,47 @@ _arr_cli = fusion_cli('parse_arriba', 'parse_arriba', 'Arriba', 'py_arriba_cli',
 _arr_cli['slice'] = ('variants: List[seqvar.VariantRecord] = []', "with open(fusion, 'rt') as handle:")
 _arr_cli['allow_with'] = ["open(fusion, 'rt')"]
 TARGETS.append(_arr_cli)
+
+# ---------------------------------------------------------------------------------------------- C17 parseCIRCexplorer
+# (21) parser/CIRCexplorerParser.py CIRCexplorer2KnownRecord.convert_to_circ_rna (inherited by CIRCexplorer3: the two
+#      column layouts differ only in is_valid)                                              vs Circ.convert_circ
+#      Trusted: the record is the model's cerec (circ_type 'circRNA' / 'ciRNA' = 0 / 1), the annotation seen by the
+#      record is the model's canno (transcript strand = gene strand); anno.coordinate_genomic_to_gene is of_res (g2gene);
+#      anno.find_exon_index / find_intron_index are the model's functions (ExonNotFoundError = None);
+#      FeatureLocation(start, end) raises ValueError for end < start; a fragment is its (start, end); the never-read
+#      list fragment_ids, the id / location strings and the gene name do not influence the emitted model.
+TARGETS.append(
+    dict(out='Py_CIRCexplorerParser', file='moPepGen/parser/CIRCexplorerParser.py', cls='CIRCexplorer2KnownRecord',
+         func='convert_to_circ_rna', coq_name='py_convert_circ', imports=['Model.Vep', 'Model.Circ'],
+         args=[('a', 'canno'), ('r', 'cerec'), ('sr', 'Z * Z'), ('er', 'Z * Z')],
+         types={'frag': '(Z * Z)', 'circ': 'circ', 'ftype': 'Z', 'ctype': 'Z'},
+         params={'anno': (None, 'opaque'), 'intron_start_range': (None, 'opaque'), 'intron_end_range': (None, 'opaque')},
+         binds={'self.isoform_name': 'txid', 'anno.transcripts[tx_id]': 'txmodel', 'tx_model.transcript.gene_id': 'geneid'},
+         var_types={'fragments': 'list frag', 'intron': 'list Z'},
+         res_names=('COk', 'CErr'), res_ctors=['CErrValue', 'CErrExon', 'CErrIntron', 'CErrIndex'],
+         ret_ty='circ', res_ty='cres circ', ok='(COk {})', stub='CErrExon',
+         errors={'IndexError': 'CErrIndex', 'ValueError': 'CErrValue', 'err.ExonNotFoundError': 'CErrExon',
+                 'UnboundLocalError': 'CErrValue'},
+         raises=[('ValueError', 'any', None, 'CErrValue')],
+         ignore_stmts=[r'^fragment_ids', r'^genomic_location = ', r'^circ_id = '],
+         ignore_may_store=['genomic_location', 'circ_id'],
+         patterns=[('tx_model.transcript.strand', {}, '(g_strand (ca_gene a))', 'Z'),
+                   ("self.circ_type == 'circRNA'", {}, '(ce_type r =? 0)', 'bool'),
+                   ("self.circ_type == 'ciRNA'", {}, '(ce_type r =? 1)', 'bool'),
+                   ("'exon'", {}, '0', 'Z'), ("'intron'", {}, '1', 'Z'),
+                   ('self.exon_sizes', {}, '(ce_sizes r)', 'list Z'), ('self.exon_offsets', {}, '(ce_offsets r)', 'list Z'),
+                   ('self.start', {}, '(ce_start r)', 'Z'), ('self.end', {}, '(ce_end r)', 'Z'),
+                   ('anno.coordinate_genomic_to_gene(_p, gene_id)', {'_p': 'Z'}, '(of_res (g2gene (ca_gene a) {_p}))', 'res Z'),
+                   ('FeatureLocation(seqname=_n, start=_s, end=_e, strand=strand)', {'_n': '*', '_s': 'Z', '_e': 'Z'},
+                    '(if {_e} <? {_s} then None else Some ({_s}, {_e}))', 'opt:ValueError:frag'),
+                   ('FeatureLocation(seqname=_n, start=_s, end=_e)', {'_n': '*', '_s': 'Z', '_e': 'Z'},
+                    '(if {_e} <? {_s} then None else Some ({_s}, {_e}))', 'opt:ValueError:frag'),
+                   ('SeqFeature(chrom=_c, location=_l, attributes={}, type=_t)', {'_c': '*', '_t': '*', '_l': 'frag'}, '{_l}', 'frag'),
+                   ('anno.find_exon_index(tx_id, _f)', {'_f': 'frag'}, '(find_exon_index a {_f})', 'opt:err.ExonNotFoundError:Z'),
+                   ('anno.find_intron_index(tx_id, _f, intron_start_range=intron_start_range, intron_end_range=intron_end_range)',
+                    {'_f': 'frag'}, '(find_intron_index a {_f} sr er)', 'res Z'),
+                   ('CircRNAModel(transcript_id=_a1, fragments=_f, intron=_i, _id=_a2, gene_id=_a3, gene_name=_a4, genomic_location=_a5, backsplicing_site=_b)',
+                    {'_a1': '*', '_a2': '*', '_a3': '*', '_a4': '*', '_a5': '*', '_f': 'list frag', '_i': 'list Z', '_b': 'frag'},
+                    '(mkCirc {_f} {_i} (fst {_b}) (snd {_b}))', 'circ')],
+         stmt_patterns=[('fragments.append(_x)', {'_x': 'frag'}, 'fragments', '({cur} ++ [{_x}])'),
+                        ('intron.append(_x)', {'_x': 'Z'}, 'intron', '({cur} ++ [{_x}])')]))
